@@ -43,6 +43,7 @@ def setCfg (c : CodecCfg) (kv : String) : Option CodecCfg :=
       else if v == "sticky" then some { c with manReadBytes := .sticky } else none
     | "man.peersCap" => do let b ← two "declared" "bounded"; pure { c with manPeersBounded := b }
     | "man.frameAlloc" => do let b ← two "declared" "bounded"; pure { c with manFrameBounded := b }
+    | "man.nilPayloadOp" => do let b ← two "le" "lt"; pure { c with manNilPayloadLt := b }
     | "entry.alloc" => do let b ← two "declared" "bounded"; pure { c with entryAllocBounded := b }
     | "vs.decodeGuard" => do let b ← two "none" "checked"; pure { c with vsDecodeChecked := b }
     | "key.parseTsMin" => do let o ← CmpOp.ofString? v; pure { c with parseTsMin := o }
@@ -111,7 +112,10 @@ def parseEdit? (s : String) : Option Edit :=
     pure ⟨t, .vl (some ⟨b, f, o, v⟩)⟩
   | [t, "nil"] => do
     let t ← natOf? t
-    if t = 3 ∨ t = 4 ∨ t = 5 then pure ⟨t, .vl none⟩ else none
+    if t = 3 ∨ t = 4 ∨ t = 5 then pure ⟨t, .vl none⟩
+    else if t = 6 then pure ⟨t, .raft none⟩
+    else if t = 7 then pure ⟨t, .region none⟩
+    else none
   | [t, "none"] => do let t ← natOf? t; pure ⟨t, .none⟩
   | t :: "raft" :: fields => do
     let t ← natOf? t
